@@ -182,16 +182,18 @@ class Check:
 
     # ------------------------------------------------------------------ stage 3: harness
     def cargo_build(self, features="std", profile=None):
-        cmd = ["cargo", "build", "--offline", "--no-default-features", "--features", features]
+        key = (features.replace(",", "+") or "nostd") + ("-" + profile if profile else "")
+        tdir = os.path.join(HARNESS, "target", key)
+        cmd = ["cargo", "build", "--offline", "--no-default-features", "--features", features, "--target-dir", tdir]
         if profile:
             cmd += ["--profile", profile]
         rc, out, dt = sh(cmd, cwd=HARNESS, timeout=3600)
-        self.cov["stages"]["cargo_build_%s_s" % features.replace(",", "+")] = round(dt, 2)
+        self.cov["stages"]["cargo_build_%s_s" % key] = round(dt, 2)
         if rc != 0:
             self.problems.append({"kind": "tie", "detail": "harness does not build against /repo (features=%s)" % features,
                                   "names": ["cargo build --features " + features], "errors": out[-3000:]})
             return None
-        return os.path.join(HARNESS, "target", profile or "debug", "corr")
+        return os.path.join(tdir, profile or "debug", "corr")
 
     def transcript(self, exe, args, name):
         path = os.path.join(WORK, "%s-%s.tr" % (self.pid, name))
